@@ -97,7 +97,7 @@ func c01Specs(tier string) []*XSpec {
 			al := quickAlpha
 			if c.CheckVHash {
 				al = append(append([]Op{}, quickAlpha...), perKey(keys, Op{K: "set", V: "hA"}, Op{K: "set", V: "hB"})...)
-				al = append(al, Op{K: "set", V: "vh0", Key: "a"}, Op{K: "setsame", Key: "a", Rev: -2})
+				al = append(al, Op{K: "set", V: "vh0", Key: "a"}, Op{K: "setsame", Key: "a", Rev: -2}, Op{K: "setsame", Key: "a", Rev: 3})
 			}
 			specs = append(specs, &XSpec{Property: "C01", Name: c.Name, Cfg: c, Alphabet: al, Depth: 4, Keys: keys, Exec: c01Exec})
 		}
